@@ -113,6 +113,12 @@ func newSystem(c config) (*system, error) {
 	}
 	sys := &system{c: c, s: hk.NewSession(chain, nil)}
 	sys.s.BindAll()
+	// a third local stream is bound last and stays idle: it negotiated the same extensions under different
+	// ids (transport-cc under 1, where stream 1 carries its mid) - per-stream settings must stay per stream
+	l3 := &hk.Local{K: 3, Info: hk.StreamInfo(true, 3, true)}
+	l3.Info.RTPHeaderExtensions = []interceptor.RTPHeaderExtension{{URI: "urn:ietf:params:rtp-hdrext:sdes:mid", ID: hk.TwccExtID}, {URI: hk.TransportCCURI, ID: 1}}
+	l3.W = chain.BindLocalStream(l3.Info, sys.s.SinkFor(3))
+	sys.s.Locals[3] = l3
 	for k, rm := range sys.s.Remotes {
 		h, p := hk.Shape(0, rm.Info.SSRC, 30000, 1)
 		if k == 1 {
